@@ -26,6 +26,7 @@ ASSUMPTIONS = [
     'the .p8 music line has no place for bit 7 of the 4th channel byte: the writer must drop it and the reader must produce 0 there',
 ]
 EXHAUSTIVE = {'quick': True, 'thorough': True}
+PYOPT_KINDS = ('whole_p8',)
 
 
 def plan(tier, seed):
